@@ -55,8 +55,9 @@ def cmd_run(mid, checks):
     finally:
         sh('git -C /repo reset -q')
         sh('git -C /repo checkout -- .')
-    meta['runs'] = [x for x in meta.get('runs', []) if x.get('checks') != checks]
-    meta['runs'].append({'checks': checks, 'results': results, 'caught': any(v['exit'] == 1 for v in results.values()),
+    label = checks if not os.environ.get('VERIF_SEED') else [c + '@seed' + os.environ['VERIF_SEED'] for c in checks]
+    meta['runs'] = [x for x in meta.get('runs', []) if x.get('checks') != label]
+    meta['runs'].append({'checks': label, 'results': results, 'caught': any(v['exit'] == 1 for v in results.values()),
                          'repo_head': sh('git -C /repo rev-parse --short HEAD').stdout.strip()})
     json.dump(meta, open(os.path.join(dst, 'meta.json'), 'w'), indent=1)
 
